@@ -135,6 +135,7 @@ void v_set_input(int pin, int level) {
 /* ------------------------------------------------------------------ flash */
 unsigned char v_flash[V_FLASH_SECTORS * 4096];
 int v_flash_fail_at = 0, v_flash_crash_at = 0, v_flash_ops = 0, v_log_flash = 0;
+int v_flash_fail_code = SPI_FLASH_RESULT_ERR; /* result of a failing op: ERR (1) or TIMEOUT (2) */
 void (*v_on_flash)(const char *op, unsigned addr, unsigned len) = 0;
 static int flash_fault(void) {
   v_flash_ops++;
@@ -145,14 +146,14 @@ static int flash_fault(void) {
 SpiFlashOpResult spi_flash_erase_sector(uint16 s) {
   if (v_log_flash) vout("FLASH erase %u 4096", (unsigned)s * 4096u);
   if (v_on_flash) v_on_flash("erase", (unsigned)s * 4096u, 4096);
-  if (flash_fault()) return SPI_FLASH_RESULT_ERR;
+  if (flash_fault()) return (SpiFlashOpResult)v_flash_fail_code;
   if (s < V_FLASH_SECTORS) memset(v_flash + (size_t)s * 4096, 0xFF, 4096);
   return SPI_FLASH_RESULT_OK;
 }
 SpiFlashOpResult spi_flash_write(uint32 d, uint32 *s, uint32 n) {
   if (v_log_flash) vout("FLASH write %u %u", d, n);
   if (v_on_flash) v_on_flash("write", d, n);
-  if (flash_fault()) return SPI_FLASH_RESULT_ERR;
+  if (flash_fault()) return (SpiFlashOpResult)v_flash_fail_code;
   for (uint32 i = 0; i < n; i++) if (d + i < sizeof v_flash) v_flash[d + i] &= ((unsigned char *)s)[i];
   return SPI_FLASH_RESULT_OK;
 }
